@@ -72,12 +72,12 @@ PROPS = {
         'trusted_base': [], 'not_decided': [],
     },
     'C10': {
-        'technique': 'Kani harnesses on ModelParameter::{mul, mul_add_assign} and VoiceSet::weighted over symbolic parameters with exact-scaling weight constants',
-        'level_text': 'bounded: for weight vectors from an exact-scaling constant set and ALL parameter values the blend is bit-exactly sum w_v p_v; (1,0) reproduces voice 0; identical voices reproduce the voice',
-        'level_note': 'arbitrary symbolic weights are intractable for CBMC (products of two symbolic doubles, P9): the general product formula is NOT decided; 2 voices, vector length 1-2',
-        'verus': [],
+        'technique': 'Verus contracts on the extracted text of ModelParameter::{mul, mul_add_assign} (IEEE ops uninterpreted); Kani harnesses on VoiceSet::weighted over symbolic parameters with exact-scaling weight constants',
+        'level_text': 'unbounded proof (any weight, any vector length) that one accumulation step yields exactly lhs + weight*rhs per mean/variance/msd component and that mul scales every component; bounded: VoiceSet::weighted folds the voices in order with the given weight vector (2 voices), (1,0) reproduces voice 0, identical voices reproduce the voice',
+        'level_note': 'VoiceSet::weighted itself (iterators held in variables) is outside Verus: its fold over voices is bounded-checked by Kani with weight constants only; which weight vector feeds which quantity in Models is not decided; floats are uninterpreted in Verus (no rounding claims)',
+        'verus': ['interp'],
         'assumptions': [], 'trusted_base': [],
-        'not_decided': ['general weighted-average formula for arbitrary (non-constant) weights', 'which weight vector feeds which quantity (Models::duration/stream/gv) is not yet covered'],
+        'not_decided': ['VoiceSet::weighted for more than 2 voices / symbolic weights', 'which weight vector feeds which quantity (Models::duration/stream/gv)', '"up to rounding" for identical voices with arbitrary weights'],
     },
     'C17': {
         'technique': 'Verus contracts on the extracted text of Labels::new and Engine::generator',
@@ -93,6 +93,7 @@ PROPS = {
         'level_text': 'unbounded proof (any tree size / table size) that the Gaussian handed out is pdf[first tree with matching state][leaf reached by the yes/no walk - 1] and that a PDF row splits into means|variances|msd; partial correctness (termination of the walk assumed)',
         'level_note': 'PARTIAL: question matching (jlabel-question fast path / regex) is an uninterpreted predicate; section split, header deserializer, tree text parser, convert_tree, window parsing and option loading are not under contract in this revision',
         'verus': ['tree'],
+        'hole_units': ['cond'],
         'assumptions': ['Question::test is a deterministic predicate of (question, label) (uninterpreted test_spec)',
                         'Model::find_tree_index == first tree whose state matches (Kani-checked, bounded trees <= 3)'],
         'trusted_base': [],
@@ -125,10 +126,10 @@ PROPS = {
         'not_decided': ['all samples finite inside the stable range; non-finite only after runaway growth', 'Model::get_parameter todo!() unreachable only for well-formed models (precondition lookup_ok in unit tree)'],
     },
     'C05': {
-        'technique': 'Kani harnesses on Mask::{create,fill,boundary_distances} and MlpgAdjust::create (argument capture by stubbing calc_wuw_and_wum)',
-        'level_text': 'bounded: frame -> state expansion, unvoiced frames carry NODATA, dynamic windows at an edge get zero precision, boundary distances on all masks of 4 frames',
+        'technique': 'Verus contract on the extracted text of Mask::boundary_distances; Kani harnesses on Mask::{create,fill} and MlpgAdjust::create (argument capture by stubbing calc_wuw_and_wum)',
+        'level_text': 'unbounded proof of the boundary distances (voiced run lengths to the nearest unvoiced frame or edge) for any number of frames; bounded: frame -> state expansion, unvoiced frames carry NODATA, dynamic windows at an edge get zero precision',
         'level_note': 'PARTIAL: that calc_wuw_and_wum accumulates W\'U^-1W and that LDL + substitutions solve the normal equations to rounding accuracy is NOT decided (real-number linear algebra; no float semantics in Verus, symbolic products intractable in CBMC)',
-        'verus': [],
+        'verus': ['mask'],
         'assumptions': [], 'trusted_base': [],
         'not_decided': ['maximum-likelihood optimality: W\'U^-1W c = W\'U^-1 mu to rounding accuracy', 'zero-precision rule next to unvoiced frames (only the utterance-edge case is checked)'],
     },
@@ -167,10 +168,11 @@ PROPS = {
     'C20': {
         'technique': 'Kani native function contracts (requires/ensures/modifies + proof_for_contract) and loop-free full-domain harnesses on Condition setters/getters',
         'level_text': 'complete (loop-free, full symbolic f64/usize domain) proofs of every scalar setter/getter contract incl. frame; indexed setters bounded to vectors of length 3',
-        'level_note': 'NaN excluded (property says finite); indexed-setter frame bounded(len=3); load_model defaults not yet covered in this revision',
-        'verus': [],
+        'level_note': 'NaN excluded (property says finite); clamp/max values of the indexed setters pinned on vectors of length 3 (Kani) while their frame is proved for any length (Verus, clamp/max uninterpreted); load_model: option loop abstracted as a statement hole checked by Kani on concrete option strings; [x].repeat(n) and InterporationWeight::new are assumed contracts',
+        'verus': ['cond'],
         'assumptions': [
-            'indexed setters (msd threshold, GV weight): frame checked on vectors of concrete length 3 under Kani (bounded); clamp/max semantics for all non-NaN f64 (complete, loop-free)',
+            'indexed setters (msd threshold, GV weight): frame proved for every vector length in Verus unit cond with f64::clamp / f64::max as uninterpreted functions (assume_specification); their values are pinned by Kani on vectors of length 3 and, for the same expressions, for all non-NaN f64 by the scalar setter contracts',
+            'repeat1: [x].repeat(n) yields n copies of x (std, assumed)', 'InterporationWeight::new(nvoices, nstream) abstracted by iw_new_spec (its shape is checked by K-wts iw_new_shapes)',
             'NaN arguments are outside the property ("finite argument") and excluded by kani::requires / kani::assume',
         ],
         'trusted_base': [],
